@@ -389,7 +389,7 @@ class Context:
 
         def array_constructor(*args):
             if len(args) == 1 and isinstance(args[0], (int, float)):
-                arr = JSArray(int(args[0]))
+                arr = JSArray(self._array_length(args[0]))
             else:
                 arr = JSArray()
                 for arg in args:
